@@ -61,6 +61,10 @@ def events(tier, depth_left):
         ev.append(["crop", [[2, 20], [1, 10]], bs])
         ev.append(["crop", [[1, 10], [1, 10], [2, 10]], bs])
     ev.append(["new_session"])
+    # a second, long-lived Sampler object on the same file (another session
+    # running at the same time; runs alternate, they do not overlap)
+    ev.append(["other", [[2, 20]]])
+    ev.append(["other", [[1, 10], [2, 10]]])
     return ev
 
 
@@ -75,6 +79,8 @@ class World:
                                                 "csv": "csv"}[cfg["engine"]])
         self.rows = []  # reference model
         self.s = self.new_sampler()
+        self.s2 = self.new_sampler()
+        self.last = self.s
 
     def new_sampler(self, scripted=True):
         import xyzpy as xyz
@@ -103,7 +109,20 @@ class World:
         kind = ev[0]
         before = list(self.rows)
         new_rows = None
-        if kind == "sample":
+        if kind != "other":
+            self.last = None  # (set to the acting sampler below)
+        if kind == "other":
+            seq = ev[1]
+            builtins._xv_script = {"a": [x[0] for x in seq],
+                                   "b": [x[1] for x in seq]}
+            try:
+                last = self.s2.sample_combos(len(seq), verbosity=0)
+            except Exception as e:
+                return [("raised:" + type(e).__name__,
+                         "sample_combos (second sampler) raised %r" % e)]
+            self.last = self.s2
+            new_rows = [self.expect_row(x[0], x[1]) for x in seq]
+        elif kind == "sample":
             _, seq, over = ev
             n = len(seq)
             script = {"a": [s[0] for s in seq], "b": [s[1] for s in seq]}
@@ -165,9 +184,12 @@ class World:
             new_rows = [self.expect_row(s[0], s[1]) for s in seq]
         elif kind == "new_session":
             self.s = self.new_sampler()
+            self.last = self.s
             return []
         else:
             raise core.HarnessError("unknown event %r" % (ev,))
+        if self.last is None:
+            self.last = self.s
         # the run's own frame
         got_last = sorted(cmp.row_key(r) for r in cmp.df_rows(last))
         if got_last != sorted(cmp.row_key(r) for r in new_rows):
@@ -183,7 +205,9 @@ class World:
         want = [cmp.row_key(_fill(r)) for r in self.rows]
         views = {}
         try:
-            fd = self.s.full_df
+            # the table held by the sampler that ran last (another live
+            # sampler is legitimately stale until its next synced run)
+            fd = self.last.full_df
             views["memory"] = [] if fd is None else cmp.df_rows(fd)
         except Exception as e:
             vio.append(("memory-unreadable", "full_df raised %r" % e))
